@@ -28,6 +28,7 @@ From Low Require Import Lib.MachInt Lib.BitSeq Model.SectionWriter Spec.SectionW
   Proofs.SectionWriterProofs Proofs.SectionWriterCalls Proofs.MemFileProofs Proofs.SectionIOProofs
   Proofs.SectionStreamProofs Proofs.SectionCountProofs Proofs.SectionPairProofs.
 From Low Require Import Model.SectionNest Spec.SectionNestSpec Proofs.SectionNestProofs.
+From Low Require Import Model.SectionBig Spec.SectionBigSpec Proofs.SectionBigProofs.
 From Low Require Import Lib.Bytes Model.Pbcmpl Spec.PbcmplSpec Model.PbcmplFile.
 From Low Require Import Spec.PbcmplFileSpec.
 From Low Require Proofs.PbcmplStream Proofs.PbcmplFileProofs Proofs.PbcmplFileRoundTrip Proofs.PbcmplFileFrames
@@ -512,6 +513,50 @@ Example C18_nested_nonvacuous :
   = [([3; 1], [(11, [1;2;3])]); ([0; 1], []); ([1; 0], [(10, [7])])] /\
   spec_nested [(10, 4); (1, 8)] [] [(1%nat, AWrite [1;2;3;4;5;6;7;8]); (1%nat, AWrite [9]); (0%nat, AWrite [7])]
   = [([3; 1], [(11, [1;2;3])]); ([0; 1], []); ([1; 0], [(10, [7])])].
+Proof. split; vm_compute; reflexivity. Qed.
+
+(** * Buffers of any length over a writer that fails by position; two callers on one writer
+    ([Model/SectionBig.v]: the same [step] / [WriteAt], driven differently). *)
+
+(** a writer that accepts the bytes below an absolute offset F and fails (class e) from there on: the
+    section writer over it refines the cursor/length machine over it -- whatever the buffer lengths
+    (no 1 MiB or other threshold), in particular the cursor after a partly failed Write *)
+Theorem C18_position_fault_refinement : forall o n F e cs,
+  0 <= o /\ 0 <= n /\ o + n <= 2^63 - 1 -> Forall call_ok cs ->
+  map (fun r => (rets r, ucalls r)) (run_pf F e (NewSectionWriter o n) cs)
+  = arun_pf o n F e 0 (map to_acall cs).
+Proof. exact run_pf_refines. Qed.
+Print Assumptions C18_position_fault_refinement.
+
+(** A = WriteAt and B = any call on ONE writer: A leaves the state untouched, and its result is the
+    same whether B happened before it or not -- so however the two interleave inside the underlying
+    writer, each behaves as made alone from the state both found *)
+Theorem C18_writeat_order_independent : forall s pA oA cB,
+  let rA := snd (WriteAt s [] pA oA) in
+  fst (fst (WriteAt s [] pA oA)) = s /\
+  snd (WriteAt (fst (fst (step s [] cB))) [] pA oA) = rA.
+Proof. exact writeat_order_independent. Qed.
+Print Assumptions C18_writeat_order_independent.
+
+(** the two-caller model refines the cursor/length machine *)
+Theorem C18_concurrent_refinement : forall o n pos0 pA oA cB,
+  0 <= o /\ 0 <= n /\ o + n <= 2^63 - 1 -> 0 <= pos0 -> o + pos0 <= 2^63 - 1 ->
+  - 2^63 <= oA < 2^63 -> call_ok cB ->
+  (let '(rA, rB) := concurrent o n pos0 pA oA cB in ((rets rA, ucalls rA), (rets rB, ucalls rB)))
+  = aconcurrent o n pos0 pA oA (to_acall cB).
+Proof. exact concurrent_refines. Qed.
+Print Assumptions C18_concurrent_refinement.
+
+(** non-vacuity: the writer fails at absolute 6; a Write of 8 bytes at cursor 2 of section (1, 20)
+    passes 3 bytes, returns (3, error 2), and the cursor is at 5: Seek(0, SeekCurrent) says so and the
+    next Write starts at absolute 6.  Two callers on section (5, 4): A = WriteAt(6 bytes at 2) is cut to 2
+    bytes (ErrShortWrite), B = WriteAt(2 bytes at 0) fits (nil). *)
+Example C18_position_fault_nonvacuous :
+  map (fun r => (rets r, ucalls r))
+    (run_pf 6 2 (NewSectionWriter 1 20) [CSeek 2 0; CWrite (expand_buf 10 8); CSeek 0 1; CWrite [7]])
+  = [([2; 0], []); ([3; 2], [(3, [10;11;12;13;14;15;16;17])]); ([5; 0], []); ([0; 2], [(6, [7])])] /\
+  (let '(rA, rB) := concurrent 5 4 0 [65;66;67;68;69;70] 2 (CWriteAt [120;121] 0) in (rets rA, ucalls rA, rets rB, ucalls rB))
+  = ([2; 1], [(7, [65;66])], [2; 0], [(5, [120;121])]).
 Proof. split; vm_compute; reflexivity. Qed.
 
 (** * Widening across packages: pbcmpl frames in one file through iohelper
